@@ -17,6 +17,12 @@ pub enum PidLiveness {
 }
 
 pub fn pid_liveness(pid: u32) -> PidLiveness {
+    #[cfg(rip_verif)]
+    rip_kernel::verif::point("auth.liveness");
+    #[cfg(rip_verif)]
+    if let Some(liveness) = verif_hooks::liveness_override(pid) {
+        return liveness;
+    }
     #[cfg(unix)]
     {
         use std::os::raw::c_int;
@@ -100,6 +106,8 @@ impl AuthorityLockGuard {
         let lock_path = authority_lock_path(&data_dir);
         let meta_path = authority_meta_path(&data_dir);
 
+        #[cfg(rip_verif)]
+        rip_kernel::verif::point("auth.acquire.before_create");
         let mut file = fs::OpenOptions::new()
             .create_new(true)
             .write(true)
@@ -116,6 +124,10 @@ impl AuthorityLockGuard {
             started_at_ms: now_ms(),
             workspace_root: workspace_root.as_ref().to_string_lossy().to_string(),
         };
+        #[cfg(rip_verif)]
+        let record = verif_hooks::override_record(record);
+        #[cfg(rip_verif)]
+        rip_kernel::verif::point("auth.acquire.created");
         let json =
             serde_json::to_vec(&record).map_err(|err| format!("lock record json failed: {err}"))?;
         file.write_all(&json)
@@ -150,13 +162,19 @@ impl AuthorityLockGuard {
 
 impl Drop for AuthorityLockGuard {
     fn drop(&mut self) {
+        #[cfg(rip_verif)]
+        rip_kernel::verif::point("auth.drop.before_remove_meta");
         let _ = fs::remove_file(&self.meta_path);
+        #[cfg(rip_verif)]
+        rip_kernel::verif::point("auth.drop.before_remove_lock");
         let _ = fs::remove_file(&self.lock_path);
     }
 }
 
 pub fn read_authority_meta(data_dir: impl AsRef<Path>) -> Result<Option<AuthorityMeta>, String> {
     let path = authority_meta_path(data_dir);
+    #[cfg(rip_verif)]
+    rip_kernel::verif::point("auth.read_meta");
     let Ok(contents) = fs::read_to_string(&path) else {
         return Ok(None);
     };
@@ -169,6 +187,8 @@ pub fn read_authority_lock_record(
     data_dir: impl AsRef<Path>,
 ) -> Result<Option<AuthorityLockRecord>, String> {
     let path = authority_lock_path(data_dir);
+    #[cfg(rip_verif)]
+    rip_kernel::verif::point("auth.read_lock");
     let Ok(contents) = fs::read_to_string(&path) else {
         return Ok(None);
     };
@@ -185,6 +205,8 @@ pub fn try_cleanup_stale_authority_files(
     let lock_path = authority_lock_path(&data_dir);
     let meta_path = authority_meta_path(&data_dir);
 
+    #[cfg(rip_verif)]
+    rip_kernel::verif::point("auth.stale.before_exists");
     if !lock_path.exists() {
         return Ok(false);
     }
@@ -211,6 +233,8 @@ pub fn try_cleanup_stale_authority_files(
         expected_started_at_ms,
         now_ms()
     ));
+    #[cfg(rip_verif)]
+    rip_kernel::verif::point("auth.stale.before_rename");
     match fs::rename(&lock_path, &lock_tombstone) {
         Ok(()) => {}
         Err(err) if err.kind() == std::io::ErrorKind::NotFound => return Ok(false),
@@ -226,6 +250,8 @@ pub fn try_cleanup_stale_authority_files(
                 expected_started_at_ms,
                 now_ms()
             ));
+            #[cfg(rip_verif)]
+            rip_kernel::verif::point("auth.stale.before_meta_rename");
             if fs::rename(&meta_path, &meta_tombstone).is_ok() {
                 let _ = fs::remove_file(meta_tombstone);
             }
@@ -238,10 +264,14 @@ pub fn try_cleanup_stale_authority_files(
 
 pub fn try_cleanup_corrupt_lock_file(data_dir: impl AsRef<Path>) -> Result<bool, String> {
     let lock_path = authority_lock_path(&data_dir);
+    #[cfg(rip_verif)]
+    rip_kernel::verif::point("auth.corrupt.before_exists");
     if !lock_path.exists() {
         return Ok(false);
     }
 
+    #[cfg(rip_verif)]
+    rip_kernel::verif::point("auth.corrupt.before_meta_exists");
     if authority_meta_path(&data_dir).exists() {
         return Ok(false);
     }
@@ -252,6 +282,8 @@ pub fn try_cleanup_corrupt_lock_file(data_dir: impl AsRef<Path>) -> Result<bool,
         std::process::id(),
         now_ms()
     ));
+    #[cfg(rip_verif)]
+    rip_kernel::verif::point("auth.corrupt.before_rename");
     match fs::rename(&lock_path, &tombstone) {
         Ok(()) => {}
         Err(err) if err.kind() == std::io::ErrorKind::NotFound => return Ok(false),
@@ -267,10 +299,64 @@ fn atomic_write_file(path: &Path, payload: &[u8]) -> std::io::Result<()> {
         fs::create_dir_all(parent)?;
     }
     let tmp = path.with_extension("tmp");
+    #[cfg(rip_verif)]
+    rip_kernel::verif::point("auth.meta.before_tmp_write");
     fs::write(&tmp, payload)?;
+    #[cfg(rip_verif)]
+    rip_kernel::verif::point("auth.meta.before_remove");
     let _ = fs::remove_file(path);
+    #[cfg(rip_verif)]
+    rip_kernel::verif::point("auth.meta.before_rename");
     fs::rename(tmp, path)?;
     Ok(())
+}
+
+/// Verification-only controls (compiled only with `--cfg rip_verif`; no behaviour change).
+/// A harness runs several contenders as threads of one process: each thread may carry its own
+/// pid for the lock record, and liveness answers for chosen pids can be scripted.  Pids without
+/// an entry fall through to the real `kill(pid, 0)` probe.
+#[cfg(rip_verif)]
+pub mod verif_hooks {
+    use super::{AuthorityLockRecord, PidLiveness};
+    use std::cell::Cell;
+    use std::collections::BTreeMap;
+    use std::sync::Mutex;
+
+    thread_local! {
+        static THREAD_PID: Cell<Option<u32>> = const { Cell::new(None) };
+    }
+    static LIVENESS: Mutex<BTreeMap<u32, PidLiveness>> = Mutex::new(BTreeMap::new());
+
+    pub fn set_thread_pid(pid: Option<u32>) {
+        THREAD_PID.with(|p| p.set(pid));
+    }
+
+    pub fn set_liveness(pid: u32, liveness: Option<PidLiveness>) {
+        let mut table = LIVENESS.lock().unwrap_or_else(|e| e.into_inner());
+        match liveness {
+            Some(l) => {
+                table.insert(pid, l);
+            }
+            None => {
+                table.remove(&pid);
+            }
+        }
+    }
+
+    pub(super) fn liveness_override(pid: u32) -> Option<PidLiveness> {
+        LIVENESS
+            .lock()
+            .unwrap_or_else(|e| e.into_inner())
+            .get(&pid)
+            .copied()
+    }
+
+    pub(super) fn override_record(mut record: AuthorityLockRecord) -> AuthorityLockRecord {
+        if let Some(pid) = THREAD_PID.with(|p| p.get()) {
+            record.pid = pid;
+        }
+        record
+    }
 }
 
 #[cfg(test)]
